@@ -7,7 +7,7 @@ D=$(mktemp -d /tmp/seedrun-XXXX)
 rsync -a --exclude .git --exclude build --exclude docs /repo/ $D/
 cd $D && patch -p1 -s < $OUT/${X}_patch.diff || { echo "PATCH FAILED"; rm -rf $D; exit 9; }
 if grep -qE '\.pyx|\.c$|\.pxd' <(grep '^+++ ' $OUT/${X}_patch.diff); then
-  /venv/bin/python setup.py build_ext --inplace -j8 >/dev/null 2>&1 || { echo "BUILD FAILED"; rm -rf $D; exit 9; }
+  /venv/bin/python setup.py build_ext --inplace --force -j8 >/dev/null 2>&1 || { echo "BUILD FAILED"; rm -rf $D; exit 9; }
   rm -rf build
 fi
 PYTHONPATH=/repo/src /venv/bin/python $OUT/${X}_demo.py >/dev/null 2>&1; d0=$?
